@@ -146,6 +146,12 @@ def run(ctx):
     for _ in range(n_extra):
         k = rng.randint(1, 7)
         extra.append([rng.choice(pool) for _ in range(k)])
+    # lists that name a step twice: the first occurrence in front of its required step, the second behind it
+    for p_ in steps:
+        for r_ in req[p_]:
+            pre_ = [q_ for q_ in req[r_]]
+            extra.append(pre_ + [p_, r_, p_])
+            extra.append(pre_ + [p_, r_, p_, r_])
     cases = []
     for s in sels + extra:
         for op in ("autosort", "check", "apply"):
